@@ -290,11 +290,73 @@ def count_keepalive_frames(sends, ids, thr):
     return n
 
 
+def write_fault_dispatch(chk):
+    """A write fails in one turn of the loop (the answer to a keep-alive can no longer be sent) while more packets are already
+    readable: every packet the thread reads in that turn is still dispatched - early listeners, the built-in reaction, ordinary
+    listeners, in that order - before the held write error ends the thread; with a disconnect packet among them the error is
+    dropped and the packets before it were dispatched all the same."""
+    from minecraft.networking.connection import Connection
+    from minecraft.networking.packets import Packet
+    import errno
+    for pv in (47, 340, 757):
+        ids = proto.Ids(pv)
+        for thr in (None, 64):
+            for tail in ('none', 'goodbye'):
+                pre = ([proto.frame(ids.set_compression, proto.varint(thr))] if thr is not None else []) + [proto.frame(ids.login_success, ids.b_login_success(), thr)]
+                first = b''.join(pre) + proto.frame(ids.keep_alive, ids.b_keep_alive(41), thr)
+                later = [('chat', proto.frame(ids.chat, ids.b_chat('{"text":"a"}'), thr)), ('unknown', proto.frame(0x7e, b'opaque', thr)),
+                         ('ka', proto.frame(ids.keep_alive, ids.b_keep_alive(42), thr)), ('chat', proto.frame(ids.chat, ids.b_chat('{"text":"b"}'), thr))]
+                if tail == 'goodbye':
+                    # (no answer may be pending when the goodbye is dispatched: disconnect() flushes the queue first, and a flush
+                    #  onto the dead socket is a second write error raised from inside the reaction - outside this suite)
+                    later = [x for x in later if x[0] != 'ka']
+                    later.append(('bye', proto.frame(ids.play_disconnect, proto.string('{"text":"bye"}'), thr)))
+                net = sim.Net([sim.Server([first], end='idle')]).install()
+                log, excs = [], []
+                orig_send = sim.SimSocket.send
+                nsend = [0]
+
+                def send(self_, data, orig=orig_send):
+                    nsend[0] += 1
+                    if nsend[0] > 4:
+                        if nsend[0] == 5:
+                            net.servers[0].chunks.append(b''.join(f for _n, f in later))
+                        raise BrokenPipeError(errno.EPIPE, 'Broken pipe')
+                    return orig(self_, data)
+                sim.SimSocket.send = send
+                try:
+                    conn = Connection('localhost', 25565, username='user', allowed_versions={pv}, handle_exception=lambda e, i: excs.append(e))
+                    conn.register_packet_listener(lambda p: log.append(('early', p.id)), Packet, early=True)
+                    conn.register_packet_listener(lambda p: log.append(('late', p.id)), Packet)
+                    conn.connect()
+                    net.run_threads(conn)
+                finally:
+                    sim.SimSocket.send = orig_send
+                    net.uninstall()
+                want_ids = [ids.set_compression] * (thr is not None) + [ids.login_success, ids.keep_alive] + [
+                    {'chat': ids.chat, 'unknown': 0x7e, 'ka': ids.keep_alive, 'bye': ids.play_disconnect}[n] for n, _f in later]
+                exp = [(w, i) for i in want_ids for w in ('early', 'late')]
+                # the model's turn: an IOError (EPIPE) held back from the write phase, then the packets that are readable
+                m_out, m_n = run_model([('loop_turn_n', [[[errno.EPIPE, True]], [[n == 'bye', [], n == 'bye'] for n, _f in later]])])[0]
+                exp_err = [] if m_out == [1] else ['IOError']
+                if m_n != len(later) or (m_out == [1]) != (tail == 'goodbye'):
+                    chk.broken('write-fault-dispatch', 'the model dispatches %d of %d packets and ends with %s' % (m_n, len(later), m_out))
+                case = {'proto': pv, 'threshold': thr, 'after_the_failed_write': [n for n, _f in later]}
+                chk.count('write-fault-dispatch', case, True)
+                got_err = [exn_name(e) for e in excs]
+                if log != exp or got_err != exp_err:
+                    missing = [x for x in exp if x not in log]
+                    chk.violation('write-fault-dispatch', 'write-fault-dispatch:%d:%s:%s' % (pv, thr, tail), {'case': case, 'expected': [exp, exp_err], 'observed': [log, got_err]},
+                                  'protocol %d threshold %s: a keep-alive answer failed with EPIPE while %s were readable: %d of %d listener calls happened (first missing: %s), errors %s (expected %s)' % (
+                                      pv, thr, [n for n, _f in later], len(log), len(exp), missing[:1], got_err, exp_err))
+
+
 def run(chk):
     common.standard_proof(chk, 'Properties/C13.v')
     th = chk.tier == 'thorough'
     run_direct(chk, 3000 if th else 400)
     run_sim(chk, 300 if th else 40)
+    write_fault_dispatch(chk)
     chk.assumptions += ['isinstance / issubclass are Python\'s; the model takes the subclass relation as an arbitrary parameter and the harness supplies the real one']
 
 
